@@ -12,6 +12,7 @@ harmless), the fragments are executed symbolically against the closed table belo
   initRowsGen      argument order / model time of the initial residual = C01.initRowsCode
   initStateGen     X[initial_state_indices] * nominals                = C01.initStateCode
   initDersGen      scattered initial derivatives (member's own index) = C01.initDersCode
+  ownInterpGen / ownColsGen  interpolant of a variable with its own stamps, overwritten columns = C01.interpOwnAll / C01.ownCols
   collocBlockGen   dt, finite differences, residual calls, theta branch = C01.collocBlock
   sliceIdxGen / timeIdxGen   slices of the mapped input row            = C01.sliceIdx / C01.timeIdx
   blockOfRowGen_eq_model     the two together                          = C01.blockOfRow
@@ -57,6 +58,14 @@ Closed table "Python construct -> model term" (anything else is REJECTED: broken
    Z[P] = X[I] * np.array(N)                                    scatter Z P (zipWith (*) (I.map X) N)
    if len(V) > 0: Z[P'] = V                                     scatter Z P' V   (empty lists: identity)
    X[L] * np.concatenate((<nominal arrays>))                    zipWith (*) (L.map X) ((range s.k).map s.nom)
+ K7  variables with their own time stamps  (anchor: the loop that calls `interpolate(` with 5 arguments)
+   interpolate(self.times(v), self.state_vector(v, ensemble_member=m), self.times(), False, self.interpolation_method(v))
+                                                      tsL.map (fun t => outRat (interpSym o.mode (o.times.zip <values>) t))
+     the 4th (equidistant) argument MUST be the literal False: the model's interpolant is ca.interp1d in
+     its non-equidistant form   [TRUSTED: interp1d = the C19 interpolation model]
+   if nominal != 1: R *= nominal   /   R *= nominal   (nominal = self.variable_nominal(v))   map (nomv * ·), fused
+   <M>[:, c] = R[:-1]  /  <M>[:, c'] = R[1:]           columns (c, 0) / (c', 1) with Nat arithmetic over j and k
+   if n == len(times): continue                       variables on the collocation grid are left to the reshape
  K1  collocation block  (anchor: `if th == 0: Y.append(a) elif th == 1: Y.append(b) else: Y.append(c)`
      with th = self.theta)
    U = ca.MX.sym("accumulated_U", ...);  U[a:b] / U[e]          slice u a b / u.getD e 0
@@ -908,6 +917,133 @@ def _k1(F):
 
 
 # =================================================================================================
+# K7: variables with their own time stamps
+
+
+def _k7(F):
+    loop = call = None
+    for node in ast.walk(F.fn):
+        if isinstance(node, ast.For) and isinstance(node.iter, ast.Call) and isinstance(node.iter.func, ast.Name) \
+                and node.iter.func.id == "enumerate" and "state_vector" in _u(node, 10 ** 6):
+            for sub in ast.walk(node):
+                if isinstance(sub, ast.Call) and isinstance(sub.func, ast.Name) and sub.func.id == "interpolate" \
+                        and len(sub.args) == 5 and F.enclosing(sub, ast.For) is node:
+                    loop, call = node, sub
+    if loop is None:
+        raise TranslationError("K7: the interpolation of variables with their own time stamps was not found")
+    if not (isinstance(loop.iter, ast.Call) and isinstance(loop.iter.func, ast.Name) and loop.iter.func.id == "enumerate"
+            and isinstance(loop.target, ast.Tuple) and len(loop.target.elts) == 2):
+        raise TranslationError("K7: loop header " + _u(loop.iter))
+    jv, vv = loop.target.elts[0].id, loop.target.elts[1].id
+    mloop = F.enclosing(loop, ast.For)
+    if mloop is None or not _range_ensemble(mloop.iter):
+        raise TranslationError("K7: not inside the member loop")
+    mvar = mloop.target.id
+    env = {}
+    result = None
+    scaled = False
+    cols = {}
+    for st in loop.body:
+        if isinstance(st, ast.Assign) and len(st.targets) == 1 and isinstance(st.targets[0], ast.Name):
+            env[st.targets[0].id] = st.value
+            if st.value is call:
+                result = st.targets[0].id
+        elif isinstance(st, ast.If) and len(st.body) == 1 and isinstance(st.body[0], ast.Continue) and not st.orelse:
+            t = st.test
+            ok = isinstance(t, ast.Compare) and len(t.ops) == 1 and isinstance(t.ops[0], ast.Eq)
+            if not ok:
+                raise TranslationError("K7: unsupported skip condition " + _u(t))
+        elif isinstance(st, ast.If) or isinstance(st, ast.AugAssign):
+            aug = st
+            if isinstance(st, ast.If):
+                t = st.test
+                ok = isinstance(t, ast.Compare) and len(t.ops) == 1 and isinstance(t.ops[0], ast.NotEq) \
+                    and isinstance(t.comparators[0], ast.Constant) and t.comparators[0].value == 1 \
+                    and len(st.body) == 1 and not st.orelse and isinstance(st.body[0], ast.AugAssign) \
+                    and _u(t.left) == _u(st.body[0].value)
+                if not ok:
+                    raise TranslationError("K7: unsupported statement " + _u(st))
+                aug = st.body[0]
+            nv = aug.value
+            if isinstance(nv, ast.Name):
+                nv = env.get(nv.id)
+            ok = isinstance(aug.op, ast.Mult) and isinstance(aug.target, ast.Name) and aug.target.id == result \
+                and isinstance(nv, ast.Call) and _is_self_attr(nv.func, "variable_nominal") and len(nv.args) == 1 \
+                and isinstance(nv.args[0], ast.Name) and nv.args[0].id == vv and not scaled
+            if not ok:
+                raise TranslationError("K7: unsupported scaling " + _u(aug))
+            scaled = True
+        elif isinstance(st, ast.Assign) and len(st.targets) == 1 and isinstance(st.targets[0], ast.Subscript):
+            t, v = st.targets[0], st.value
+            sl = t.slice
+            ok = isinstance(sl, ast.Tuple) and len(sl.elts) == 2 and isinstance(sl.elts[0], ast.Slice) \
+                and sl.elts[0].lower is None and sl.elts[0].upper is None \
+                and isinstance(v, ast.Subscript) and isinstance(v.value, ast.Name) and v.value.id == result \
+                and isinstance(v.slice, ast.Slice) and v.slice.step is None
+            if not ok:
+                raise TranslationError("K7: unsupported column assignment " + _u(st))
+            lo, hi = v.slice.lower, v.slice.upper
+            if lo is None and isinstance(hi, ast.UnaryOp) and isinstance(hi.op, ast.USub) and _u(hi.operand) == "1":
+                part = 0
+            elif hi is None and isinstance(lo, ast.Constant) and lo.value == 1:
+                part = 1
+            else:
+                raise TranslationError("K7: unsupported part of the interpolant " + _u(v))
+            if part in cols:
+                raise TranslationError("K7: the same part of the interpolant is stored twice")
+
+            def col(node):
+                if isinstance(node, ast.Name) and node.id == jv:
+                    return "j"
+                if isinstance(node, ast.Constant) and isinstance(node.value, int) and node.value >= 0:
+                    return str(node.value)
+                if isinstance(node, ast.BinOp) and isinstance(node.op, (ast.Add, ast.Mult)):
+                    return "(%s %s %s)" % (col(node.left), "+" if isinstance(node.op, ast.Add) else "*", col(node.right))
+                if isinstance(node, ast.Call) and isinstance(node.func, ast.Name) and node.func.id == "len":
+                    return _K1(F).nat(node, st.lineno)
+                raise TranslationError("K7: unsupported column index " + _u(node))
+
+            cols[part] = col(sl.elts[1])
+        else:
+            raise TranslationError("K7: unsupported statement " + _u(st))
+    if result is None or sorted(cols) != [0, 1]:
+        raise TranslationError("K7: interpolant / column assignments not found")
+
+    def res(node):
+        return env.get(node.id) if isinstance(node, ast.Name) and node.id in env else node
+
+    a = [res(x) for x in call.args]
+    ok0 = isinstance(a[0], ast.Call) and _is_self_attr(a[0].func, "times") and len(a[0].args) == 1 \
+        and isinstance(a[0].args[0], ast.Name) and a[0].args[0].id == vv
+    if not ok0:
+        raise TranslationError("K7: knots are " + _u(a[0]))
+    sv = a[1]
+    okv = isinstance(sv, ast.Call) and _is_self_attr(sv.func, "state_vector") and sv.args \
+        and isinstance(sv.args[0], ast.Name) and sv.args[0].id == vv
+    mem = None
+    if okv:
+        if len(sv.args) == 2:
+            mem = sv.args[1]
+        for kw in sv.keywords:
+            if kw.arg == "ensemble_member":
+                mem = kw.value
+    if not okv or not (isinstance(mem, ast.Name) and mem.id == mvar):
+        raise TranslationError("K7: values are " + _u(sv))
+    q = call.args[2]
+    qd = F.the_def(q.id, loop.lineno).value if isinstance(q, ast.Name) else q
+    if not (isinstance(qd, ast.Call) and _is_self_attr(qd.func, "times") and not qd.args and not qd.keywords):
+        raise TranslationError("K7: query times are " + _u(qd))
+    eq = call.args[3]
+    if not (isinstance(eq, ast.Constant) and eq.value is False):
+        raise TranslationError("K7: the equidistant argument of interpolate() must be the literal False "
+                               "(the model's interpolant is the non-equidistant ca.interp1d), found " + _u(eq))
+    if not (isinstance(a[4], ast.Call) and _is_self_attr(a[4].func, "interpolation_method") and len(a[4].args) == 1
+            and isinstance(a[4].args[0], ast.Name) and a[4].args[0].id == vv):
+        raise TranslationError("K7: interpolation mode is " + _u(a[4]))
+    return dict(own_scale="nomv * " if scaled else "", own_cols="[(%s, 0), (%s, 1)]" % (cols[0], cols[1]))
+
+
+# =================================================================================================
 
 GEN_TEMPLATE = """import RtcVerif.Model.C01Colloc
 import RtcVerif.Proofs.C01Gen
@@ -960,6 +1096,22 @@ def initDersGen (I : Inst) (m : Nat) (X : Vec) : List Rat :=
 theorem initDersGen_eq_model (I : Inst) (m : Nat) (X : Vec) :
     initDersGen I m X = initDersCode I.sys (I.mem m) X := rfl
 
+/-! variables with their own time stamps: interpolant at the collocation times, overwritten columns -/
+def ownInterpGen (X : Vec) (idxv : Nat → Nat) (nomv : Rat) (o : Own) (tsL : List Rat) : List Rat :=
+  tsL.map (fun t => %(own_scale)soutRat (interpSym o.mode
+    (o.times.zip ((List.range o.times.length).map (fun q => X (idxv q)))) t))
+
+theorem ownInterpGen_eq_model (X : Vec) (idxv : Nat → Nat) (nomv : Rat) (o : Own) (tsL : List Rat) :
+    ownInterpGen X idxv nomv o tsL = interpOwnAll X idxv nomv o tsL := rfl
+
+def ownColsGen (k j : Nat) : List (Nat × Nat) := %(own_cols)s
+
+theorem ownColsGen_eq_model (k j : Nat) : ownColsGen k j = ownCols k j := by
+  unfold ownColsGen ownCols
+  first
+    | rfl
+    | (simp only [List.cons.injEq, Prod.mk.injEq, and_true, true_and]; omega)
+
 /-! collocation block: finite differences, residual calls, theta branch -/
 def collocBlockGen (F : Residual) (theta tinit : Rat) (par s0 s1 c0 c1 : List Rat) (ta tb : Rat) : List Rat :=
   if theta = 0 then %(b0)s
@@ -1009,6 +1161,7 @@ end RtcVerif.Gen
 """
 
 THEOREMS = ["effParGen_eq_model", "initRowsGen_eq_model", "initStateGen_eq_model", "initDersGen_eq_model",
+            "ownInterpGen_eq_model", "ownColsGen_eq_model",
             "collocBlockGen_eq_model", "sliceIdxGen_eq_model", "timeIdxGen_eq_model", "blockOfRowGen_eq_model"]
 
 
@@ -1020,6 +1173,7 @@ def translate():
     init = _k5(F)
     k6 = _k6(F)
     k1 = _k1(F)
+    k7 = _k7(F)
     var_sc = ("scatter %%s (List.range s.nd)\n    (List.zipWith (· * ·) ((List.range s.nd).map (fun j => %s)) "
               "((List.range s.nd).map (fun j => %s)))" % (k6["vi"], k6["vn"])).replace("(fun j => s.dnom j)", "s.dnom")
     const_sc = ("scatter %%s ((List.range (s.k - s.nd)).map (s.nd + ·))\n    ((List.range (s.k - s.nd)).map (fun q => %s))"
@@ -1033,6 +1187,7 @@ def translate():
     d = dict(k4)
     d.update(init=init, state=k6["state"], ders=ders)
     d.update(k1)
+    d.update(k7)
     return GEN_TEMPLATE % d
 
 
